@@ -249,6 +249,22 @@ CHECKS = {
         design_ref="DESIGN.md 5 C09",
         note="Trusted: Lean kernel; axioms propext/Quot.sound/Classical.choice; atomicity of one model transition (lock + the lock-free work that follows, which touches only connections the thread owns — proved only as id validity, exclusivity is checked per replayed schedule); the schedule controller and the verif-hooks scheduling points; the loopback peer's log; model + harness. ",
         technique="Lean 4 proof (shutdown invariants of the pool transition system) + refinement check: shutdown forced at every position of the schedules of the real pools"),
+    "C19": dict(
+        category="model+correspondence",
+        text="Partial by nature: panics, stack depth and running time are runtime facts. What is proved (Props/C19.lean) is about the models: "
+             "every model function is total (Lean's termination checker, no partial definitions) and the modelled kernels produce output "
+             "linear in their input (crlf_at_most_doubles, relaxed_body_no_growth, relaxed_headers_no_growth, base64_length). What is checked "
+             "on the code: 29 public entry points (FromStr / parse / new / builder / encode / sign / serde / URL) on boundary characters at "
+             "every position of valid templates, structure-aware mutations, byte soup and 64 KiB repetitions, in threads with 2 MiB stacks "
+             "under catch_unwind, in the optimised build and (one worker process per case) in the opt-level 0 build; wall time of sizes "
+             "doubling to 1 MiB (thorough: 4 MiB) against Spec/Cost.lean (two consecutive doublings costing > 3.2x each = super-linear). Every "
+             "other property's check reports a panic of the code as a violation as well.",
+        design_ref="DESIGN.md 5 C19",
+        note="Trusted: catch_unwind, the 2 MiB worker threads and worker processes of the harness, wall-clock measurement with generous "
+             "thresholds; Lean kernel for the model facts. Two defects repaired in /repo (quadratic CRLF conversion, per-character recursion "
+             "in DKIM relaxed header canonicalization); two recorded findings (MultiPart boundary that is not a valid MIME parameter panics; "
+             "Date::new outside 1970..9999 panics). Memory exhaustion and allocator aborts are outside the check.",
+        technique="Lean 4 proof of size bounds and totality of the models + differential panic / crash / timing runs of the real entry points (optimised and unoptimised builds)"),
 }
 
 NOT_APPLICABLE = {
